@@ -189,4 +189,29 @@ pub fn run(args: &[String]) {
             }
         }
     }
+    // the same string through the event-type enum of another kind: a timeline type that is converted from a state or
+    // message-like type must equal the timeline type made from the string itself
+    let mut all: Vec<String> = table.get("StateEventType").cloned().unwrap_or_default();
+    all.extend(table.get("MessageLikeEventType").cloned().unwrap_or_default());
+    all.extend(["org.example.custom".to_owned(), "m.secret_storage.key.a".to_owned()]);
+    all.sort();
+    all.dedup();
+    for s in &all {
+        use ruma_events::{MessageLikeEventType, StateEventType, TimelineEventType};
+        let direct = TimelineEventType::from(s.as_str());
+        let via: [(&str, Result<TimelineEventType, String>); 2] = [
+            ("TimelineEventType(from MessageLikeEventType)", guard(|| TimelineEventType::from(MessageLikeEventType::from(s.as_str())))),
+            ("TimelineEventType(from StateEventType)", guard(|| TimelineEventType::from(StateEventType::from(s.as_str())))),
+        ];
+        for (name, r) in via {
+            out.put(&match r {
+                Ok(y) => {
+                    let (sa, sb) = (direct.to_string(), y.to_string());
+                    let cmp = match direct.cmp(&y) { std::cmp::Ordering::Less => -1, std::cmp::Ordering::Equal => 0, std::cmp::Ordering::Greater => 1 };
+                    json!({"kind": "pair", "enum": name, "a": sa, "b": sb, "eq": direct == y, "lt": direct < y, "cmp": cmp, "partial": cmp, "strless": sa < sb, "panic": false})
+                }
+                Err(p) => json!({"kind": "pair", "enum": name, "a": s, "b": s, "eq": false, "lt": false, "cmp": 9, "partial": 9, "strless": false, "panic": true, "msg": p}),
+            });
+        }
+    }
 }
